@@ -25,6 +25,9 @@ ASSUMPTIONS = [
     "virtual sockets/clock/RNG are representative of real ones; IPv4 servers only; no system configuration is read",
     "allocation succeeds (C14 covers failures); single-threaded use (C11 covers threads)",
     "C-level memory safety is observed under ASan/UBSan on the explored scenarios, not proved",
+    "'0x20 randomisation is on' is read per transmission: ares_send.c randomises the case of UDP transmissions only, and "
+    "same_questions() compares case-sensitively exactly for those; a query (re)sent over TCP carries the name as given and "
+    "is matched case-insensitively (theorem case_sensitive_under_0x20 has the hypothesis usingTcp = false)",
 ]
 RULE = ("scenarios are generated from VERIF_SEED by tools/simlib.py (channel options, request kinds, per-transmission server "
         "behaviours incl. forged/late replies, timer advances, socket failures, callback reactions that send or cancel); "
